@@ -274,7 +274,8 @@ def run(ctx):
                 "big_offset_stream": {"cases": len(big), "classes": big_classes, "IN_cases": sum(1 for l in big if l.startswith("IN")),
                                       "what": "HP / IN cases of the random generator translated as a whole (every cell, and the absolute positions of the IN "
                                               "updates) by 2^24 + odd, 2^25 + k (k not a multiple of 4), 2^26 + k, +-(2^30 - small), -(2^24 + odd) in x and / or y; all "
-                                              "coordinates strictly inside +-2^30; judged like every other case (model, from-scratch oracle); the DO stream "
+                                              "coordinates strictly inside +-2^30; one case in four is an in-box case instead (cell / update positions just below 2^23, every raw pin offset "
+                                              "moved by ~2^24 - small: the box of c09_incremental_exact_machine, pin coordinates ~1.5 * 2^24); judged like every other case (model, from-scratch oracle); the DO stream "
                                               "carries translated circuits too (detailed_placer_value_stream.stress_streams)"},
                 "samples": [po[len(po) // 2], lines[len(po) + 1], lines[-1]],
                 "model_vs_impl_differences": len(mism) + len(seq_mism), "impl_outputs_violating_statement": ofail_total,
